@@ -44,3 +44,34 @@ class HarnessError(Exception):
 
 class CaseTimeout(BaseException):
     """Raised by the per-case watchdog (SIGALRM); must never be swallowed by harness code."""
+
+
+
+def deterministic_tasks(loop, salt: int = 0):
+    """Makes the iteration order of *sets of tasks* a function of the program instead of memory addresses.
+
+    asyncio.Task hashes by identity, i.e. by address; the library keeps meta tasks in sets and iterates them when it cancels or
+    gathers, so the order of those cancellations differed from run to run of the very same program (and between a program and its
+    twin). Tasks created on this loop are instances of a Task subclass whose hash is their creation number mixed with `salt`
+    (derived from the program): every run of a program sees the same order, different programs see different orders."""
+    import asyncio
+    import itertools
+
+    counter = itertools.count(1)
+
+    class SeqTask(asyncio.Task):  # type: ignore[type-arg]
+        def __init__(self, *a, **k):
+            self._vt_seq = next(counter)
+            super().__init__(*a, **k)
+
+        def __hash__(self) -> int:
+            return ((self._vt_seq * 2654435761) ^ salt) & 0x7FFFFFFF
+
+        def __eq__(self, other) -> bool:
+            return self is other
+
+    def factory(lp, coro, **kw):
+        return SeqTask(coro, loop=lp, **kw)
+
+    loop.set_task_factory(factory)
+    return SeqTask
